@@ -1,108 +1,305 @@
 import Model.C15
-/-! C15 proofs: `GetReplicationSetForPartitionAndOperation` returns only healthy registered owners. -/
+/-! C15 proofs: `GetReplicationSetForPartitionAndOperation` — one healthy registered owner per zone,
+non-read-only preferred, highest numeric suffix among those. -/
 namespace PfC15
 open C14 C15
 
-theorem foldl_choice {α β} (f : Option α → β → Option α) (sel : β → α)
-    (hf : ∀ b a, f b a = b ∨ f b a = some (sel a)) :
-    ∀ (l : List β) (init : Option α), l.foldl f init = init ∨ ∃ a ∈ l, l.foldl f init = some (sel a)
-  | [], init => Or.inl rfl
-  | x :: l, init => by
-    simp only [List.foldl_cons]
-    rcases foldl_choice f sel hf l (f init x) with h | ⟨a, ha, h⟩
-    · rcases hf init x with h' | h'
-      · left; rw [h, h']
-      · right; exact ⟨x, by simp, by rw [h, h']⟩
-    · right; exact ⟨a, by simp [ha], h⟩
+/-! ### the order on suffix indexes (`none` = +∞) -/
 
-theorem pickStep_choice (zone : String) (b : Option (String × Ring.Inst)) (a : String × Ring.Inst) :
-    pickStep zone b a = b ∨ pickStep zone b a = some a := by
+theorem idxLt_irrefl : ∀ a, idxLt a a = false
+  | none => rfl
+  | some a => by simp [idxLt]
+
+theorem idxLt_asymm : ∀ a b, idxLt a b = true → idxLt b a = false
+  | some a, some b, h => by simp [idxLt] at h ⊢; omega
+  | some _, none, _ => rfl
+  | none, _, h => by simp [idxLt] at h
+
+/-- `x ≤ h` and `h ≤ c` give `x ≤ c`, written with `¬ <` -/
+theorem idxLe_trans : ∀ c h x, idxLt c h = false → idxLt h x = false → idxLt c x = false
+  | none, _, _, _, _ => rfl
+  | some c, some h, some x, h1, h2 => by simp [idxLt] at h1 h2 ⊢; omega
+  | some c, some h, none, _, h2 => by simp [idxLt] at h2
+  | some c, none, _, h1, _ => by simp [idxLt] at h1
+
+/-! ### the per-zone pick -/
+
+abbrev Cand := String × Ring.Inst
+
+/-- what the loop has established about `best` after looking at `seen` -/
+def PickInv (zone : String) (seen : List Cand) : Option Cand → Prop
+  | none => ∀ x ∈ seen, x.2.zone ≠ zone
+  | some c => c ∈ seen ∧ c.2.zone = zone ∧
+      (∀ h ∈ seen, h.2.zone = zone → c.2.ro = true → h.2.ro = true) ∧
+      (∀ h ∈ seen, h.2.zone = zone → h.2.ro = c.2.ro → idxLt (indexFromSuffix c.1) (indexFromSuffix h.1) = false)
+
+theorem pickStep_inv (zone : String) (seen : List Cand) (best : Option Cand) (cand : Cand)
+    (h : PickInv zone seen best) : PickInv zone (seen ++ [cand]) (pickStep zone best cand) := by
   unfold pickStep
-  split
-  · exact Or.inl rfl
-  · cases b with
-    | none => exact Or.inr rfl
-    | some hbest =>
+  by_cases hz : cand.2.zone = zone
+  · have hz' : (cand.2.zone != zone) = false := by simp [hz]
+    rw [hz']; simp only [Bool.false_eq_true, if_false]
+    cases best with
+    | none =>
+      simp only [PickInv] at h ⊢
+      refine ⟨by simp, hz, ?_, ?_⟩
+      · intro x hx hxz _
+        rcases List.mem_append.mp hx with hx | hx
+        · exact absurd hxz (h x hx)
+        · simp at hx; subst hx; assumption
+      · intro x hx hxz _
+        rcases List.mem_append.mp hx with hx | hx
+        · exact absurd hxz (h x hx)
+        · simp at hx; subst hx; exact idxLt_irrefl _
+    | some b =>
+      obtain ⟨hbm, hbz, hbro, hbmax⟩ := h
       simp only
-      split
-      · exact Or.inr rfl
-      · split
-        · exact Or.inl rfl
-        · split
-          · exact Or.inl rfl
-          · exact Or.inr rfl
+      by_cases h1 : (b.2.ro && !cand.2.ro) = true
+      · -- best is read-only, candidate is not: take the candidate
+        rw [if_pos h1]
+        simp only [Bool.and_eq_true, Bool.not_eq_true'] at h1
+        refine ⟨by simp, hz, ?_, ?_⟩
+        · intro x _ _ hc; rw [h1.2] at hc; cases hc
+        · intro x hx hxz hxro
+          rcases List.mem_append.mp hx with hx | hx
+          · have := hbro x hx hxz h1.1
+            rw [hxro, h1.2] at this; cases this
+          · simp at hx; subst hx; exact idxLt_irrefl _
+      · rw [if_neg h1]
+        by_cases h2 : (cand.2.ro && !b.2.ro) = true
+        · -- candidate is read-only, best is not: keep best
+          rw [if_pos h2]
+          simp only [Bool.and_eq_true, Bool.not_eq_true'] at h2
+          refine ⟨by simp [hbm], hbz, ?_, ?_⟩
+          · intro x _ _ hc; rw [h2.2] at hc; cases hc
+          · intro x hx hxz hxro
+            rcases List.mem_append.mp hx with hx | hx
+            · exact hbmax x hx hxz hxro
+            · simp at hx; subst hx; rw [h2.1, h2.2] at hxro; cases hxro
+        · rw [if_neg h2]
+          -- same read-only class
+          have hsame : cand.2.ro = b.2.ro := by
+            cases hc : cand.2.ro <;> cases hb : b.2.ro <;> simp [hc, hb] at h1 h2 ⊢
+          by_cases h3 : idxLt (indexFromSuffix cand.1) (indexFromSuffix b.1) = true
+          · rw [if_pos h3]
+            refine ⟨by simp [hbm], hbz, ?_, ?_⟩
+            · intro x hx hxz hc
+              rcases List.mem_append.mp hx with hx | hx
+              · exact hbro x hx hxz hc
+              · simp at hx; subst hx; rw [hsame]; exact hc
+            · intro x hx hxz hxro
+              rcases List.mem_append.mp hx with hx | hx
+              · exact hbmax x hx hxz hxro
+              · simp at hx; subst hx; exact idxLt_asymm _ _ h3
+          · rw [if_neg h3]
+            have h3' : idxLt (indexFromSuffix cand.1) (indexFromSuffix b.1) = false := by simpa using h3
+            refine ⟨by simp, hz, ?_, ?_⟩
+            · intro x hx hxz hc
+              rcases List.mem_append.mp hx with hx | hx
+              · exact hbro x hx hxz (by rw [← hsame]; exact hc)
+              · simp at hx; subst hx; exact hc
+            · intro x hx hxz hxro
+              rcases List.mem_append.mp hx with hx | hx
+              · exact idxLe_trans _ _ _ h3' (hbmax x hx hxz (by rw [hxro, hsame]))
+              · simp at hx; subst hx; exact idxLt_irrefl _
+  · have hz' : (cand.2.zone != zone) = true := by simp [hz]
+    rw [hz']; simp only [if_true]
+    cases best with
+    | none =>
+      simp only [PickInv] at h ⊢
+      intro x hx
+      rcases List.mem_append.mp hx with hx | hx
+      · exact h x hx
+      · simp at hx; subst hx; exact hz
+    | some b =>
+      obtain ⟨hbm, hbz, hbro, hbmax⟩ := h
+      refine ⟨by simp [hbm], hbz, ?_, ?_⟩
+      · intro x hx hxz hc
+        rcases List.mem_append.mp hx with hx | hx
+        · exact hbro x hx hxz hc
+        · simp at hx; subst hx; exact absurd hxz hz
+      · intro x hx hxz hxro
+        rcases List.mem_append.mp hx with hx | hx
+        · exact hbmax x hx hxz hxro
+        · simp at hx; subst hx; exact absurd hxz hz
 
-theorem pickHighest_mem (zone : String) (all : List (String × Ring.Inst)) (c : String × Ring.Inst)
-    (h : pickHighest zone all = some c) : c ∈ all := by
-  unfold pickHighest at h
-  rcases foldl_choice (pickStep zone) id (pickStep_choice zone) all none with h' | ⟨a, ha, h'⟩
-  · rw [h'] at h; cases h
-  · rw [h'] at h; cases h; exact ha
+theorem foldl_pick_inv (zone : String) : ∀ (l seen : List Cand) (best : Option Cand),
+    PickInv zone seen best → PickInv zone (seen ++ l) (l.foldl (pickStep zone) best)
+  | [], seen, best, h => by simpa using h
+  | c :: l, seen, best, h => by
+    have := foldl_pick_inv zone l (seen ++ [c]) _ (pickStep_inv zone seen best c h)
+    simpa using this
 
-/-- members of the multi-partition replication set are healthy registered owners of the partition
-(owner ids with the `/partition` suffix removed); the errors are exact. -/
-theorem multiReplSet_members (d : PDesc) (insts : Ring.Desc) (hs : List Bool) (t now : Int) (pid : Int) :
-    (∀ ids mu, multiReplSet d insts hs t now pid = .ok (ids, mu) →
-      ∀ x ∈ ids, ∃ o ∈ d.owners, o.partition = pid ∧ ∃ i, insts.get? (stripSuffix o.id) = some i ∧
-        isHealthy hs t now i = true ∧ i.id = x) ∧
-    (multiReplSet d insts hs t now pid = .error .emptyRing ↔ ¬ ∃ o ∈ d.owners, o.partition = pid) := by
+theorem pickHighest_inv (zone : String) (all : List Cand) : PickInv zone all (pickHighest zone all) := by
+  have := foldl_pick_inv zone all [] none (by simp [PickInv])
+  simpa [pickHighest] using this
+
+/-! ### zones -/
+
+theorem uniqueZones_loop_mem (l : List Ring.Inst) : ∀ (acc : List String) (z : String),
+    z ∈ l.foldl (fun acc i => if acc.contains i.zone then acc else acc ++ [i.zone]) acc ↔
+      z ∈ acc ∨ ∃ i ∈ l, i.zone = z := by
+  induction l with
+  | nil => intro acc z; simp
+  | cons a l ih =>
+    intro acc z
+    simp only [List.foldl_cons]
+    rw [ih]
+    by_cases hc : acc.contains a.zone = true
+    · simp only [hc, if_true]
+      constructor
+      · rintro (h | ⟨i, hi, hz⟩)
+        · exact Or.inl h
+        · exact Or.inr ⟨i, by simp [hi], hz⟩
+      · rintro (h | ⟨i, hi, hz⟩)
+        · exact Or.inl h
+        · rcases List.mem_cons.mp hi with rfl | hi
+          · left; rw [← hz]; simpa using hc
+          · exact Or.inr ⟨i, hi, hz⟩
+    · simp only [hc, if_false]
+      constructor
+      · rintro (h | ⟨i, hi, hz⟩)
+        · rcases List.mem_append.mp h with h | h
+          · exact Or.inl h
+          · simp at h; exact Or.inr ⟨a, by simp, h.symm⟩
+        · exact Or.inr ⟨i, by simp [hi], hz⟩
+      · rintro (h | ⟨i, hi, hz⟩)
+        · exact Or.inl (List.mem_append_left _ h)
+        · rcases List.mem_cons.mp hi with rfl | hi
+          · left; simp [hz]
+          · exact Or.inr ⟨i, hi, hz⟩
+
+theorem mem_uniqueZones (l : List Ring.Inst) (z : String) : z ∈ uniqueZones l ↔ ∃ i ∈ l, i.zone = z := by
+  unfold uniqueZones
+  rw [uniqueZones_loop_mem]; simp
+
+/-- pointwise relation between two lists of the same length -/
+inductive Forall2 {α β} (R : α → β → Prop) : List α → List β → Prop
+  | nil : Forall2 R [] []
+  | cons {a b l₁ l₂} : R a b → Forall2 R l₁ l₂ → Forall2 R (a :: l₁) (b :: l₂)
+
+theorem Forall2.imp {α β} {R S : α → β → Prop} (hRS : ∀ a b, R a b → S a b) :
+    ∀ {l : List α} {r : List β}, Forall2 R l r → Forall2 S l r
+  | _, _, .nil => .nil
+  | _, _, .cons h t => .cons (hRS _ _ h) (Forall2.imp hRS t)
+
+theorem filterMap_all_some {α β} (f : α → Option β) : ∀ (l : List α), (∀ a ∈ l, (f a).isSome) →
+    ∃ r : List β, l.filterMap f = r ∧ Forall2 (fun a b => f a = some b) l r
+  | [], _ => ⟨[], rfl, Forall2.nil⟩
+  | a :: l, h => by
+    obtain ⟨r, hr, hf⟩ := filterMap_all_some f l (fun x hx => h x (by simp [hx]))
+    cases ha : f a with
+    | none => have := h a (by simp); rw [ha] at this; cases this
+    | some b => exact ⟨b :: r, by simp [List.filterMap_cons, ha, hr], Forall2.cons ha hf⟩
+
+/-- **multi-partition replication set**: on success there is exactly one member per zone of the healthy
+registered owners (`multiFound`), in first-appearance order of the zones; each member is a healthy owner of
+its zone, is non-read-only if its zone has a non-read-only healthy owner, and has the highest numeric id
+suffix among the healthy owners of its zone and read-only class; `MaxUnavailableZones = #zones - 1`. -/
+theorem multiReplSet_exact (d : PDesc) (insts : Ring.Desc) (hs : List Bool) (t now : Int) (pid : Int)
+    (ids : List String) (mu : Nat) (h : multiReplSet d insts hs t now pid = .ok (ids, mu)) :
+    let found := multiFound d insts hs t now pid
+    let zones := uniqueZones (found.map (·.2))
+    mu = zones.length - 1 ∧
+    ∃ picks : List Cand, ids = picks.map (·.2.id) ∧
+      Forall2 (fun z c => c ∈ found ∧ c.2.zone = z ∧
+        (∀ x ∈ found, x.2.zone = z → c.2.ro = true → x.2.ro = true) ∧
+        (∀ x ∈ found, x.2.zone = z → x.2.ro = c.2.ro → idxLt (indexFromSuffix c.1) (indexFromSuffix x.1) = false))
+        zones picks := by
+  intro found zones
+  unfold multiReplSet at h
+  simp only at h
+  split at h
+  · cases h
+  · split at h
+    · cases h
+    · cases h
+      refine ⟨rfl, ?_⟩
+      have hall : ∀ z ∈ zones, (pickHighest z found).isSome := by
+        intro z hz
+        obtain ⟨i, hi, hiz⟩ := (mem_uniqueZones _ z).mp hz
+        obtain ⟨c, hc, rfl⟩ := List.mem_map.mp hi
+        have hinv := pickHighest_inv z found
+        cases hp : pickHighest z found with
+        | none => rw [hp] at hinv; exact absurd hiz (hinv c hc)
+        | some _ => rfl
+      obtain ⟨picks, hpicks, hf2⟩ := filterMap_all_some (fun z => pickHighest z found) zones hall
+      refine ⟨picks, ?_, ?_⟩
+      · rw [← hpicks]
+        show zones.filterMap (fun z => (pickHighest z found).map (·.2.id)) = _
+        rw [← List.filterMap_map_eq_filterMap_map_id_aux zones found]
+      · apply Forall2.imp _ hf2
+        intro z c hzc
+        have hinv := pickHighest_inv z found
+        rw [hzc] at hinv
+        exact hinv
+where
+  List.filterMap_map_eq_filterMap_map_id_aux (zones : List String) (found : List Cand) :
+      (zones.filterMap fun z => pickHighest z found).map (·.2.id) =
+        zones.filterMap (fun z => (pickHighest z found).map (·.2.id)) := by
+    induction zones with
+    | nil => rfl
+    | cons z zs ih =>
+      cases hp : pickHighest z found <;> simp [List.filterMap_cons, hp, ih]
+
+theorem mem_multiFound (d : PDesc) (insts : Ring.Desc) (hs : List Bool) (t now : Int) (pid : Int) (c : Cand) :
+    c ∈ multiFound d insts hs t now pid ↔
+      ∃ o ∈ d.owners, o.partition = pid ∧ c.1 = stripSuffix o.id ∧ insts.get? c.1 = some c.2 ∧
+        isHealthy hs t now c.2 = true := by
   have hown : ∀ id, id ∈ ownerIDs d pid ↔ ∃ o ∈ d.owners, o.partition = pid ∧ o.id = id := by
     intro id; simp [ownerIDs, List.mem_map, List.mem_filter, and_assoc]
+  unfold multiFound
+  simp only [List.mem_filterMap, List.mem_map]
   constructor
-  · intro ids mu h x hx
-    unfold multiReplSet at h
-    simp only at h
-    split at h
-    · cases h
-    · split at h
-      · cases h
-      · cases h
-        obtain ⟨z, _, hz⟩ := List.mem_filterMap.mp hx
-        cases hp : pickHighest z ((ownerIDs d pid).map stripSuffix |>.filterMap fun id =>
-            (healthyInst insts hs t now id).map fun i => (id, i)) with
-        | none => rw [hp] at hz; cases hz
-        | some c =>
-          rw [hp] at hz
-          have hxid : c.2.id = x := by simpa using hz
-          have hmem := pickHighest_mem z _ c hp
-          obtain ⟨sid, hsid, hmap⟩ := List.mem_filterMap.mp hmem
-          obtain ⟨oid, hoid, rfl⟩ := List.mem_map.mp hsid
-          obtain ⟨o, ho, hpid, rfl⟩ := (hown oid).mp hoid
-          cases hh : healthyInst insts hs t now (stripSuffix o.id) with
-          | none => rw [hh] at hmap; cases hmap
-          | some i =>
-            rw [hh] at hmap
-            have hc : c = (stripSuffix o.id, i) := by simpa using hmap.symm
-            have hci : c.2 = i := by rw [hc]
-            unfold healthyInst at hh
-            cases hg : insts.get? (stripSuffix o.id) with
-            | none => simp [hg] at hh
-            | some j =>
-              simp only [hg] at hh
-              by_cases hhealthy : isHealthy hs t now j = true
-              · simp only [hhealthy, if_true, Option.some.injEq] at hh
-                exact ⟨o, ho, hpid, j, hg, hhealthy, by rw [hh, ← hci]; exact hxid⟩
-              · simp [hhealthy] at hh
-  · unfold multiReplSet
-    simp only
+  · rintro ⟨sid, ⟨oid, hoid, rfl⟩, hm⟩
+    obtain ⟨o, ho, hp, rfl⟩ := (hown oid).mp hoid
+    unfold healthyInst at hm
+    cases hg : insts.get? (stripSuffix o.id) with
+    | none => simp [hg] at hm
+    | some j =>
+      simp only [hg] at hm
+      by_cases hh : isHealthy hs t now j = true
+      · simp only [hh, if_true, Option.map_some, Option.some.injEq] at hm
+        subst hm
+        exact ⟨o, ho, hp, rfl, hg, hh⟩
+      · simp [hh] at hm
+  · rintro ⟨o, ho, hp, h1, hg, hh⟩
+    refine ⟨stripSuffix o.id, ⟨o.id, (hown o.id).mpr ⟨o, ho, hp, rfl⟩, rfl⟩, ?_⟩
+    rw [← h1]
+    simp [healthyInst, hg, hh]
+
+/-- the errors are exact -/
+theorem multiReplSet_errors (d : PDesc) (insts : Ring.Desc) (hs : List Bool) (t now : Int) (pid : Int) :
+    (multiReplSet d insts hs t now pid = .error .emptyRing ↔ ¬ ∃ o ∈ d.owners, o.partition = pid) ∧
+    (multiReplSet d insts hs t now pid = .error .tooManyUnhealthy ↔
+      (∃ o ∈ d.owners, o.partition = pid) ∧ multiFound d insts hs t now pid = []) := by
+  have hown : ∀ id, id ∈ ownerIDs d pid ↔ ∃ o ∈ d.owners, o.partition = pid ∧ o.id = id := by
+    intro id; simp [ownerIDs, List.mem_map, List.mem_filter, and_assoc]
+  have hemp : ((ownerIDs d pid).map stripSuffix).isEmpty = true ↔ ¬ ∃ o ∈ d.owners, o.partition = pid := by
     constructor
-    · intro h
-      split at h
-      · rename_i hempty
-        rintro ⟨o, ho, hp⟩
-        have : o.id ∈ ownerIDs d pid := (hown o.id).mpr ⟨o, ho, hp, rfl⟩
-        have hnil : ownerIDs d pid = [] := by simpa using hempty
-        rw [hnil] at this; cases this
-      · split at h <;> cases h
-    · intro h
-      split
-      · rfl
-      · rename_i hne
-        exfalso; apply h
-        cases hl : ownerIDs d pid with
-        | nil => simp [hl] at hne
-        | cons id rest =>
-          obtain ⟨o, ho, hp, _⟩ := (hown id).mp (by rw [hl]; exact List.mem_cons_self)
-          exact ⟨o, ho, hp⟩
+    · intro he ⟨o, ho, hp⟩
+      have : o.id ∈ ownerIDs d pid := (hown o.id).mpr ⟨o, ho, hp, rfl⟩
+      have hnil : ownerIDs d pid = [] := by simpa using he
+      rw [hnil] at this; cases this
+    · intro hn
+      cases hl : ownerIDs d pid with
+      | nil => rfl
+      | cons id rest =>
+        obtain ⟨o, ho, hp, _⟩ := (hown id).mp (by rw [hl]; exact List.mem_cons_self)
+        exact absurd ⟨o, ho, hp⟩ hn
+  unfold multiReplSet
+  simp only
+  by_cases he : ((ownerIDs d pid).map stripSuffix).isEmpty = true
+  · rw [if_pos he]
+    have hn := hemp.mp he
+    exact ⟨⟨fun _ => hn, fun _ => rfl⟩, ⟨(fun h => by cases h), fun h => absurd h.1 hn⟩⟩
+  · rw [if_neg he]
+    have hex : ∃ o ∈ d.owners, o.partition = pid := Classical.not_not.mp (fun hn => he (hemp.mpr hn))
+    by_cases hf : (multiFound d insts hs t now pid).isEmpty = true
+    · rw [if_pos hf]
+      exact ⟨⟨(fun h => by cases h), fun h => absurd hex h⟩, ⟨fun _ => ⟨hex, by simpa using hf⟩, fun _ => rfl⟩⟩
+    · rw [if_neg hf]
+      exact ⟨⟨(fun h => by cases h), fun h => absurd hex h⟩,
+        ⟨(fun h => by cases h), fun h => absurd (by simp [h.2]) hf⟩⟩
 
 end PfC15
